@@ -4,29 +4,41 @@
    node's list of interrupted customers) and a later slot with room restarts them (slot_loop: no record).  Journey2's NoInt /
    Journey2s's IntInv (only a node with a pre-emptive Schedule has interrupted customers) are false there.
 
-   What this file delivers (partial correctness; no hypothesis on the draws):
-     scope2t (executable)      Journey2s.scope2s extended by pre-emptive capacitated slots (sl_pre <> 4; no capacities anywhere
-                               when one is present); scope2s_scope2t.
+   What this file delivers (partial correctness; no hypothesis on the draws; every configuration in scope2t):
+     scope2t (executable)      Journey2s.scope2s extended by pre-emptive capacitated slots (sl_pre in resume / restart / resample:
+                               no slot table has option 4, which Slotted.__init__ rejects; no capacities anywhere when a
+                               pre-emptive capacitated slot is present; no reroute); scope2s_scope2t.
      SlotInt cf s              THE INVARIANT FOR THE INTERRUPTED LISTS OF SLOTTED NODES (what Journey2r.v names as missing):
                                no customer twice on the list; a listed customer is recorded in that node, carries a server
                                mark (i_server <> None) and has NO service start date and NO service end date (so it is neither
-                               a victim of the next shrinking slot nor picked for the next end of service); a customer of a
-                               slotted node with a service start date carries the server mark.   slotint_b / slotint_b_sound.
-     PickT cf s                the customers named for the next end of service at a slotted node are not on its list.
-     Jrn2t cf an s h           = Conserve2.WFx2 + JH + Lq (the journey invariant proper) + SlotInt + PickT;   jrn2t_b(_sound).
+                               a victim of the next shrinking slot nor picked for the next end of service); a customer recorded
+                               at a slotted node with a service start date carries the server mark.  slotint_b / slotint_b_sound.
+     Jrn2t cf an s h           = Conserve2.WFx2 + JH + Lq (the journey invariant proper) + SlotInt;   jrn2t_b / jrn2t_b_sound.
      Jrn2t_means               the six clauses (0)-(5) of C03, word for word as Journey2s.Jrn2s_means.
      Jrn2t_int_means           the interrupted lists of slotted nodes, in words.
-     slotted_service_jrn2t     FUNCTION LEVEL: a slot event of any table in scope keeps journey part and SlotInt.
-     event_step_jrn2t_partial  EVENT LEVEL, SLOT EVENTS ONLY: if the active node runs a slot event (n_next_type = 4), one whole event
-                               (slotted_service, update of every node's next event, choice of the next active node) keeps Jrn2t.
-     run_slots_jrn2t_partial   any run consisting of slot events only.
-   What is MISSING for event_step_jrn2t / run_many_jrn2t (all events): SlotInt speaks about i_sst / i_send, which every start
-   block writes (start_fresh / start_give / start_preemptor / begin_interrupted_individuals_service / release_blocked_individual /
-   reset_individual_attributes), so it needs its own walk through the recursive core (accept / release / preempt) to show that those
-   writes never hit a customer listed at a slotted node (such a customer is in a queue of its node with a server mark, is not
-   waiting, not in flight, not blocked, not held by a real server), together with Journey2s's server invariant with ii_sch
-   relaxed to slotted nodes.  Not refuted: jt_run checks the executable invariant after EVERY event (arrivals, ends of service,
-   slots) of a run in which customer 2 is interrupted twice by a shrinking slot, resumed twice and leaves with a service record. *)
+     slotted_service_jrn2t     FUNCTION LEVEL: a slot event of any table in scope keeps the journey part (Journey2r's
+                               slotted_service_journey_partial) AND SlotInt (new: interrupt_service_SI, slot_loop_SI, slotted_service_SI).
+     interrupt_service_other_SI, biis_SI   FUNCTION LEVEL, no scope: the two other functions that handle interrupted customers
+                               (shift change of a pre-emptive Schedule at a non-slotted node; a real server restarting the head of
+                               its node's list) keep SlotInt.
+     PickT, event_tail_pickT   whatever the event: if SlotInt holds when the next events are recomputed, the customers a slotted node
+                               names for its next end of service are not on its list (what finish_service will need).
+     event_step_jrn2t_partial  EVENT LEVEL, SLOT EVENTS ONLY (slot_event_b s = true: the active node's next event is a slot): one
+                               whole event (slotted_service, update of every node's next event, choice of the next active node)
+                               keeps Jrn2t, extends the history by the event's log, and establishes PickT.
+     run_slots_jrn2t_partial   any run consisting of slot events only (slots_only / slots_only_b).
+   What is MISSING for event_step_jrn2t / run_hist_jrn2t / run_many_jrn2t / engine_journey2t (ALL events): for the events that are
+   not slot events the journey part needs Journey2s's server invariant (SrvInv + IntInv + PickOK) with ii_sch relaxed to slotted
+   nodes, and SlotInt needs to ride along: it speaks about i_sst / i_send, which every start block writes (start_fresh /
+   start_give / start_preemptor / begin_interrupted_individuals_service / release_blocked_individual / reset_individual_attributes),
+   outside the views (fiS) through which Journey2s's walk carries its invariants; showing that those writes never hit a customer
+   listed at a slotted node (it is in a queue of its node with a server mark: not waiting, not in flight, not blocked, not held by a
+   real server) needs exactly the knowledge IntInv / SrvInv hold at those points, i.e. a fork of Journey2s's recursive core
+   (core_St, ~10 places where a date write has to be taken out of the automatic frame step).  Not done in the time.  NOT refuted:
+   jt_run checks the executable invariant after EVERY event (arrival, ends of service, slots) of a run in which customer 2 is
+   interrupted twice by a shrinking slot, resumed twice and leaves with a service record (jt_chain: its four records chain).
+   Examples (section 8): jt_scope, jt_start, jt_run, jt_chain, jt_s7_inv, jt_s7_not_Jrn2s (Journey2s's invariant is false there),
+   jt_thm (the theorem applied to every run of slot events from the state with customer 2 on the list), jt_three_slots. *)
 From Coq Require Import ZArith List Bool Lia Permutation.
 From RecordUpdate Require Import RecordUpdate.
 From CiwV Require Import Sx Prelude Routing Sched.
@@ -479,3 +491,545 @@ Section SlotEvent.
     tkeep HIb HSb H HS' ET' HI'. auto.
   Qed.
 End SlotEvent.
+
+(* ====================================================================================================================
+   4a. The two other functions that handle interrupted customers, function level, no scope:
+       interrupt_service at a node that is NOT slotted (shift change of a pre-emptive Schedule) keeps SlotInt whoever the victim is
+       (it only clears dates); begin_interrupted_individuals_service (a real server restarts the head of the node's list) keeps
+       SlotInt provided that head is not on the list of a slotted node (Journey2s.IntInv: it is recorded in the restarting node).
+   ==================================================================================================================== *)
+Section OtherInt.
+  Variable cf : config.
+
+  Lemma interrupt_service_other_SI fuel j i pre s s' : (pre =? 4) = false -> slot_of cf j = false -> Idx s -> SlotInt cf s ->
+    interrupt_service cf fuel j i pre s = Ok (tt, s') -> SlotInt cf s' /\ Idx s'.
+  Proof.
+    intros Hpre Hsl HI HS H. unfold interrupt_service in H. rewrite Hpre in H.
+    tstep H t0 s0 E0. apply gets_spec in E0 as [-> ->].
+    tstep H u0 sa Ea. tkeep HI HS Ea HSa ETa HIa. clear Ea.
+    tstep H u1 sb Eb. destruct (upd_node_spec _ _ _ _ _ Eb) as (nd & Hn & Enb & Eib). clear Eb.
+    match type of Enb with nodes _ = updZ _ _ ?n => set (nd1 := n) in * end.
+    assert (Hid1 : n_id nd1 = j) by exact (HIa _ _ Hn).
+    assert (HIb : Idx sb).
+    { intros k n Hk. rewrite (nodeZ_upd sa sb nd1 nd k Enb ltac:(rewrite Hid1; exact Hn)) in Hk. rewrite Hid1 in Hk.
+      destruct (Z.eqb_spec k j) as [->|Hne]; [injection Hk as <-; exact Hid1|exact (HIa _ _ Hk)]. }
+    assert (HSb : SlotInt cf sb).
+    { apply (SlotIntX_put_node cf None sa sb j nd nd1 HSa HIa Hn Hid1 Enb Eib). intros Hx. congruence. }
+    tstep H u2 sc Ec. tkeep HIb HSb Ec HSc ETc HIc. clear Ec.
+    tstep H u3 sd Ed.
+    destruct (SlotIntX_keep cf None _ sc tt sd (kt_wint cf j i None) HIc HSc Ed) as (HSd & ETd & HId). clear Ed.
+    tstep H u4 se Ee. destruct (upd_ind_spec _ _ _ _ _ Ee) as (xd & Hxd & Eie & Ene). clear Ee.
+    match type of Eie with inds _ = put_ind_l ?x' _ => set (xe := x') in * end.
+    assert (Hide : i_id xe = i) by exact (find_ind_id _ _ _ Hxd).
+    assert (HSe : SlotInt cf se).
+    { apply (SlotIntX_put_ind cf None None sd se i xd xe HSd Hxd Hide Eie Ene); cbn.
+      - reflexivity.
+      - auto.
+      - intros y _ Hy. exact Hy.
+      - intros _ _. auto.
+      - intros _ k _ _ Hx. exfalso. apply Hx. reflexivity. }
+    pose proof (Idx_nodes sd se Ene HId) as HIe.
+    tkeep HIe HSe H HS' ET' HI'. auto.
+  Qed.
+
+  Lemma kt_upd_server j sid f : keepT KT (upd_server j sid f).
+  Proof. unfold upd_server. kv0. Qed.
+
+  Lemma biis_SI j sid s s' : Idx s -> SlotInt cf s ->
+    (forall nd i, nodeZ s j = Some nd -> hd_error (n_interrupted nd) = Some i -> ~ Listed cf s i) ->
+    begin_interrupted_individuals_service j sid s = Ok (tt, s') -> SlotInt cf s' /\ Idx s'.
+  Proof.
+    intros HI HS Hnl H. unfold begin_interrupted_individuals_service in H.
+    tstep H nd s0 E0. apply get_node_spec in E0 as [-> Hn].
+    tstep H i s0 E0. apply lift_spec in E0 as [-> Hhd].
+    pose proof (Hnl nd i Hn Hhd) as Hni.
+    assert (Hsl : slot_of cf j = false).
+    { destruct (slot_of cf j) eqn:E; [|reflexivity]. exfalso. apply Hni. exists j, nd. split; [exact Hn|]. split; [exact E|].
+      destruct (n_interrupted nd); [discriminate Hhd|]. injection Hhd as ->. left. reflexivity. }
+    tstep H x s0 E0. apply get_ind_spec in E0 as [-> Hx].
+    tstep H u0 sa Ea.
+    assert (Ha : SlotInt cf sa /\ VT sa = VT s /\ Idx sa).
+    { destruct (i_blocked x).
+      - match type of Ea with ?m _ = _ => assert (Hm : keepT (fun w => oki fiT w x) m) end.
+        { kv0. }
+        assert (E : VT sa = VT s) by (apply (Hm s tt sa); [apply Idx_vidx; exact HI|exact (proj2 (get_ind_oki fnT fiT fgT _ s x Hx))|exact Ea]).
+        split; [exact (SlotIntX_VT cf None s sa E HS)|]. split; [exact E|exact (Idx_VT s sa E HI)].
+      - apply ret_spec in Ea as [_ ->]. auto. }
+    destruct Ha as (HSa & ETa & HIa). clear Ea.
+    assert (Hnia : ~ Listed cf sa i) by (intros HL; exact (Hni (Listed_VT cf s sa i ETa HL))).
+    (* attach_server: the server, then the mark *)
+    unfold attach_server in H.
+    tstep H u1 sb Eb. tstep Eb u1' sb' Eb'.
+    destruct (SlotIntX_keep cf None _ sa tt sb' (kt_upd_server j sid _) HIa HSa Eb') as (HSb' & ETb' & HIb'). clear Eb'.
+    destruct (upd_ind_spec _ _ _ _ _ Eb) as (xb & Hxb & Eib & Enb). clear Eb.
+    match type of Eib with inds _ = put_ind_l ?x' _ => set (xb1 := x') in * end.
+    assert (Hidb : i_id xb1 = i) by exact (find_ind_id _ _ _ Hxb).
+    assert (Hnib' : ~ Listed cf sb' i) by (intros HL; exact (Hnia (Listed_VT cf sa sb' i ETb' HL))).
+    assert (HSb : SlotInt cf sb).
+    { apply (SlotIntX_put_ind cf None None sb' sb i xb xb1 HSb' Hxb Hidb Eib Enb); cbn.
+      - reflexivity.
+      - intros _. discriminate.
+      - intros y _ Hy. exact Hy.
+      - intros _ HL. exfalso. exact (Hnib' HL).
+      - intros _ k _ _ _. discriminate. }
+    pose proof (Idx_nodes sb' sb Enb HIb') as HIb.
+    assert (Hnib : ~ Listed cf sb i) by (intros HL; exact (Hnib' (Listed_nodes cf sb' sb i Enb HL))).
+    tstep H u2 sc Ec.
+    assert (Hk : keepT KT (give_service_time_after_preemption i)) by (unfold give_service_time_after_preemption; kv0).
+    destruct (SlotIntX_keep cf None _ sb tt sc Hk HIb HSb Ec) as (HSc & ETc & HIc). clear Ec Hk.
+    assert (Hnic : ~ Listed cf sc i) by (intros HL; exact (Hnib (Listed_VT cf sb sc i ETc HL))).
+    tstep H t0 sq0 E0. apply gets_spec in E0 as [-> ->].
+    tstep H x1 sq0 E0. apply get_ind_spec in E0 as [-> Hx1].
+    tstep H st sq0 Est. assert (sq0 = sc) by (unfold stime_num in Est; destruct (i_smark x1 =? 0); [apply ret_spec in Est as [_ ->]; reflexivity|discriminate Est]). subst sq0. clear Est.
+    tstep H u3 sd Ed. destruct (put_ind_facts _ _ _ _ Ed) as (Eid & End & _). clear Ed.
+    match type of Eid with inds _ = put_ind_l ?x' _ => set (xd := x') in * end.
+    assert (Hidd : i_id xd = i) by exact (find_ind_id _ _ _ Hx1).
+    assert (Hsrv1 : i_server x1 <> None).
+    { pose proof (VW_ind fnT fiT fgT sb sc i ETc) as Hv. rewrite Hx1 in Hv. rewrite Eib, <- Hidb, find_put_same in Hv. cbn in Hv. unfold fiT in Hv.
+      injection Hv as Hv _ _ _. rewrite Hv. cbn. discriminate. }
+    assert (HSd : SlotInt cf sd).
+    { apply (SlotIntX_put_ind cf None None sc sd i x1 xd HSc Hx1 Hidd Eid End); cbn.
+      - reflexivity.
+      - auto.
+      - intros y _ Hy. exact Hy.
+      - intros _ HL. exfalso. exact (Hnic HL).
+      - intros _ k _ _ _. exact Hsrv1. }
+    pose proof (Idx_nodes sc sd End HIc) as HId.
+    tstep H u4 se Ee. tkeep HId HSd Ee HSe ETe HIe. clear Ee.
+    tstep H u5 sf Ef.
+    destruct (SlotIntX_keep cf None _ se tt sf (kt_upd_server j sid _) HIe HSe Ef) as (HSf & ETf & HIf). clear Ef.
+    tstep H nd2 sq0 E0. apply get_node_spec in E0 as [-> Hn2].
+    tstep H l' sq0 E0. apply lift_spec in E0 as [-> Hrm].
+    destruct (put_node_facts _ _ _ _ H) as (Es' & Ei' & _).
+    match type of Es' with _ = _ <| nodes := updZ _ _ ?n |> => set (nd3 := n) in * end.
+    assert (Hid3 : n_id nd3 = j) by exact (HIf _ _ Hn2).
+    assert (En' : nodes s' = updZ (nodes sf) (n_id nd3 - 1) nd3) by (rewrite Es'; reflexivity).
+    split.
+    - apply (SlotIntX_put_node cf None sf s' j nd2 nd3 HSf HIf Hn2 Hid3 En' Ei'). intros Hx0. congruence.
+    - intros k n Hk. rewrite (nodeZ_upd sf s' nd3 nd2 k En' ltac:(rewrite Hid3; exact Hn2)) in Hk. rewrite Hid3 in Hk.
+      destruct (Z.eqb_spec k j) as [->|Hne]; [injection Hk as <-; exact Hid3|exact (HIf _ _ Hk)].
+  Qed.
+End OtherInt.
+
+(* ====================================================================================================================
+   4b. PickT: after the next events have been recomputed, the customers a slotted node names for its next end of service are not
+       on its interrupted list (they have an end date, a listed customer has none) -- what a finish_service event at a slotted
+       node will need (Journey2s.PickOK asks the same of Schedule nodes).  Established by update_all from SlotInt, at EVERY event.
+   ==================================================================================================================== *)
+Definition PickT (cf : config) (s : sim) : Prop :=
+  forall j nd, nodeZ s j = Some nd -> slot_of cf j = true -> n_next_type nd = 0 -> forall i, In i (n_next_inds nd) -> ~ In i (n_interrupted nd).
+Definition PickTat (cf : config) (s : sim) (j : Z) : Prop :=
+  forall nd, nodeZ s j = Some nd -> slot_of cf j = true -> n_next_type nd = 0 -> forall i, In i (n_next_inds nd) -> ~ In i (n_interrupted nd).
+
+Lemma scan_inds_send t il : forall q best acc c, In c (snd (scan_inds t q il best acc)) ->
+  In c acc \/ (exists x e, find_ind c il = Some x /\ i_send x = Some e).
+Proof.
+  induction q as [|i r IH]; intros best acc c H; cbn [scan_inds] in H; [left; exact H|].
+  destruct (find_ind i il) as [x|] eqn:Ef; [|exact (IH _ _ _ H)].
+  destruct (i_send x) as [e|] eqn:Ee; [|exact (IH _ _ _ H)].
+  destruct (negb (i_blocked x) && (t <=? e)); [|exact (IH _ _ _ H)].
+  assert (Hme : exists x0 e0, find_ind i il = Some x0 /\ i_send x0 = Some e0) by eauto.
+  destruct (date_lt (Some e) best).
+  - destruct (IH _ _ _ H) as [[->|[]]|P]; [right; exact Hme|right; exact P].
+  - destruct (date_eqb (Some e) best); [|exact (IH _ _ _ H)].
+    destruct (IH _ _ _ H) as [Hin|P]; [|right; exact P]. apply in_app_or in Hin as [Hin|[->|[]]]; [left; exact Hin|right; exact Hme].
+Qed.
+
+Section PickT.
+  Variable cf : config.
+
+  Lemma une_pickT j s s' : Idx s -> SlotInt cf s -> update_next_event_date cf j s = Ok (tt, s') ->
+    inds s' = inds s /\ (forall k, k <> j -> nodeZ s' k = nodeZ s k) /\ PickTat cf s' j.
+  Proof.
+    intros HI HS H. unfold update_next_event_date in H. mstep H as nd. mstep H as nc. mstep H as t0. mstep H as il.
+    pose proof (HI _ _ Hn) as Hidn.
+    set (inf := nd_inf nd) in *.
+    set (es := if nc_slotted nc || inf then scan_inds (now s) (all_individuals nd) (inds s) None [] else scan_servers (n_servers nd) None []) in *.
+    mstep H as rn.
+    assert (Hrn : s0 = s) by (destruct (negb inf && nc_reneging nc); [apply lift_spec in E as [-> _]; reflexivity|apply ret_spec in E as [_ ->]; reflexivity]).
+    subst s0. clear E.
+    assert (Hes : slot_of cf j = true -> forall c, In c (snd es) -> ~ In c (n_interrupted nd)).
+    { intros Hsl c Hcin Hl. assert (Hns : nc_slotted nc = true) by (unfold slot_of in Hsl; rewrite Hc in Hsl; exact Hsl).
+      unfold es in Hcin. rewrite Hns in Hcin. cbn [orb] in Hcin.
+      destruct (scan_inds_send _ _ _ _ _ c Hcin) as [[]|(x & e & Hx & He)].
+      destruct (sx_mem _ _ _ HS j nd c Hn Hsl Hl) as (x0 & Hx0 & _ & _ & P). assert (x0 = x) by congruence. subst x0.
+      destruct (P ltac:(discriminate)) as [_ P2]. congruence. }
+    assert (Hfin : forall d l ty, (ty = 0 -> l = snd es) ->
+              put_node (nd <| n_next_date := d |> <| n_next_inds := l |> <| n_next_type := ty |>) s = Ok (tt, s') ->
+              inds s' = inds s /\ (forall k, k <> j -> nodeZ s' k = nodeZ s k) /\ PickTat cf s' j).
+    { intros d l ty H0 Hp. set (nd1 := nd <| n_next_date := d |> <| n_next_inds := l |> <| n_next_type := ty |>) in *.
+      destruct (put_node_facts _ _ _ _ Hp) as (Es & Ei & _).
+      assert (En : nodes s' = updZ (nodes s) (n_id nd1 - 1) nd1) by (rewrite Es; reflexivity).
+      assert (Hn' : nodeZ s (n_id nd1) = Some nd) by (change (n_id nd1) with (n_id nd); rewrite Hidn; exact Hn).
+      assert (HZ : forall k, nodeZ s' k = if k =? j then Some nd1 else nodeZ s k).
+      { intros k. rewrite (nodeZ_upd s s' nd1 nd k En Hn'). change (n_id nd1) with (n_id nd). rewrite Hidn. reflexivity. }
+      split; [exact Ei|]. split.
+      - intros k Hk. rewrite HZ. apply Z.eqb_neq in Hk. rewrite Hk. reflexivity.
+      - intros nd' Hnn Hsl Hty c Hcin. rewrite HZ, Z.eqb_refl in Hnn. injection Hnn as <-. cbn in Hty, Hcin. change (n_interrupted nd1) with (n_interrupted nd).
+        rewrite (H0 Hty) in Hcin. exact (Hes Hsl c Hcin). }
+    destruct (nc_reneging nc || cf_dyn cf || nc_sched nc).
+    - match type of H with context [decide_next_event ?cands ?best] => destruct (dne_in cands best) as [Hd|[Hd Hne]]; destruct (decide_next_event cands best) as [ty [d l]] end.
+      + injection Hd as -> -> ->. apply (Hfin None [] 5); [intros Hx; discriminate Hx|exact H].
+      + cbn in Hne. apply (fun A => Hfin d l ty A H).
+        intros ->. apply in_app_or in Hd as [Hd|Hd].
+        * destruct (nc_srv nc); cbn in Hd; [destruct Hd|destruct Hd as [Hd|[]]; discriminate Hd|destruct Hd as [Hd|[]]; discriminate Hd].
+        * destruct Hd as [Hd|[Hd|[Hd|[]]]]; [injection Hd as Hd; rewrite Hd; reflexivity|discriminate Hd|discriminate Hd].
+    - apply (Hfin (fst es) (snd es) 0); [intros _; reflexivity|exact H].
+  Qed.
+
+  Lemma kt_une j : keepT KT (update_next_event_date cf j).
+  Proof. unfold update_next_event_date, ncfg_of, tnow. kv0. Qed.
+  Lemma kt_update_all js : keepT KT (update_all cf js).
+  Proof. induction js as [|j r IH]; cbn [update_all]; [apply kv_ret|]. apply kv_bind; [apply kt_une|intros _; exact IH]. Qed.
+
+  Lemma update_all_pickT : forall js s s', Idx s -> SlotInt cf s -> update_all cf js s = Ok (tt, s') ->
+    forall k, (In k js \/ PickTat cf s k) -> PickTat cf s' k.
+  Proof.
+    induction js as [|j r IH]; intros s s' HI HS H k Hk; cbn [update_all] in H.
+    - apply ret_spec in H as [_ ->]. destruct Hk as [[]|Hk]. exact Hk.
+    - tstep H u0 s1 E1. destruct (une_pickT j s s1 HI HS E1) as (Ei & Hoth & Hj).
+      destruct (SlotIntX_keep cf None _ s tt s1 (kt_une j) HI HS E1) as (HS1 & ET1 & HI1).
+      apply (IH s1 s' HI1 HS1 H k). destruct (Z.eq_dec k j) as [->|Hne]; [right; exact Hj|].
+      destruct Hk as [[Hk|Hk]|Hk]; [congruence|left; exact Hk|right]. intros nd Hn. rewrite (Hoth k Hne) in Hn. exact (Hk nd Hn).
+  Qed.
+
+  (* whatever the event does: if SlotInt holds when the next events are recomputed, PickT holds at the end of the event *)
+  Theorem event_tail_pickT s1 s' : Idx s1 -> SlotInt cf s1 ->
+    (ns <- gets nodes ;; update_all cf (map n_id ns) ;;; find_next_active_node) s1 = Ok (tt, s') -> PickT cf s'.
+  Proof.
+    intros HI HS H. tstep H ns sq0 Ens. apply gets_spec in Ens as [-> ->]. tstep H u2 s2 E2.
+    destruct (fnan_spec _ _ H) as (En & _).
+    intros j nd Hn. rewrite (nodeZ_same s2 s' j En) in Hn.
+    pose proof (keepT_VT _ s1 tt s2 (kt_update_all _) HI E2) as ET. destruct (VT_node _ _ _ _ ET Hn) as (nd1 & Hn1 & _).
+    apply (update_all_pickT _ s1 s2 HI HS E2 j); [|exact Hn]. left.
+    rewrite <- (HI _ _ Hn1). apply in_map. eapply nthZ_In; exact Hn1.
+  Qed.
+End PickT.
+
+(* ====================================================================================================================
+   5. The invariant at event boundaries; one SLOT event; runs of slot events
+   ==================================================================================================================== *)
+Definition Jrn2t (cf : config) (an : Z -> option Z) (s : sim) (h : list rec) : Prop :=
+  Conserve2.WFx2 [] s /\ JH an h s /\ Lq s /\ SlotInt cf s.
+
+(* the active node is about to run a slot event *)
+Definition slot_event_b (s : sim) : bool :=
+  negb (next_active s =? 0) && match nodeZ s (next_active s) with Some nd => n_next_type nd =? 4 | None => false end.
+
+Lemma Jrn2t_same cf an s s' h : nodes s' = nodes s -> inds s' = inds s -> exit_ids s' = exit_ids s -> exit_n s' = exit_n s ->
+  a_created (arr s') = a_created (arr s) -> Jrn2t cf an s h -> Jrn2t cf an s' h.
+Proof.
+  intros En Ei Ee Een Ec (A & B & C & D). split; [|split; [|split]].
+  - eapply Conserve2.WFx2_shape; [|exact A]. unfold Conserve2.shp. rewrite En, Ei, Ee, Een, Ec. reflexivity.
+  - apply (JH_mono an h s s' B); [intros k y; apply (at_node_nodes s s'); exact En|intros; rewrite Ei; reflexivity|exact Ee|lia].
+  - exact (Lq_same s s' En Ei C).
+  - apply (SlotIntX_VT cf None s s'); [|exact D]. unfold VW. rewrite En, Ei. reflexivity.
+Qed.
+
+Section SlotStep.
+  Variable cf : config.
+  Hypothesis Hsc : scope2t cf = true.
+
+  Lemma scope2t_p4 j nc sl : nthZ (cf_nodes cf) (j - 1) = Some nc -> nc_srv nc = SSlot sl -> (sl_pre sl =? 4) = false.
+  Proof.
+    intros Hc Esrv. pose proof (scope2t_nc cf j nc Hsc Hc) as Hs. unfold scope_nc_t in Hs. rewrite Esrv in Hs.
+    apply andb_true_iff in Hs as [_ Hs]. apply andb_true_iff in Hs as [Hs _]. apply andb_true_iff in Hs as [Hs _]. apply negb_true_iff in Hs. exact Hs.
+  Qed.
+
+  (* FUNCTION LEVEL: a slot event keeps the journey part of the state and the slot invariant *)
+  Theorem slotted_service_jrn2t an h j s s' : Journey2s.Jst an h [] s -> SlotInt cf s -> slotted_service cf j s = Ok (tt, s') ->
+    Journey2s.Jst an h [] s' /\ SlotInt cf s'.
+  Proof.
+    intros HJ HS H. destruct (Journey2s.Jst_Ctx an h [] s HJ) as [HW HNO].
+    split.
+    - exact (proj1 (Journey2r.slotted_service_journey_partial cf an h j s s' (fun nc sl => scope2t_p4 j nc sl) HJ H)).
+    - exact (proj1 (slotted_service_SI cf j s s' (fun nc sl => scope2t_p4 j nc sl) HW HNO HS H)).
+  Qed.
+
+  Lemma event_step_Jrn2t_slot an h s s' : Jrn2t cf an s h -> slot_event_b s = true -> event_step cf s = Ok (tt, s') ->
+    Jrn2t cf an s' (h ++ log s') /\ PickT cf s'.
+  Proof.
+    intros HJ Hse H. unfold event_step in H. tstep H u0 s0 E0. unfold modify in E0. injection E0 as <-.
+    set (s0 := s <| log := [] |>) in *.
+    assert (HJ0 : Jrn2t cf an s0 h) by (apply (Jrn2t_same cf an s s0 h); try reflexivity; exact HJ).
+    destruct HJ0 as (A & B & C & D).
+    assert (J0 : Journey2s.Jst an h [] s0).
+    { split; [exact A|]. split; [|exact C]. unfold JI. change (log s0) with (@nil rec). rewrite app_nil_r. exact B. }
+    tstep H k sx0 Ek. apply gets_spec in Ek as [-> ->].
+    unfold slot_event_b in Hse. apply andb_true_iff in Hse as [Hk0 Hty]. apply negb_true_iff in Hk0.
+    change (next_active s0) with (next_active s) in H. rewrite Hk0 in H.
+    tstep H u1 s1 E1.
+    assert (H1 : Journey2s.Jst an h [] s1 /\ SlotInt cf s1).
+    { unfold node_have_event in E1. tstep E1 nd sx0 En. apply get_node_spec in En as [-> Hn].
+      change (nodeZ s0 (next_active s)) with (nodeZ s (next_active s)) in Hn. rewrite Hn in Hty. apply Z.eqb_eq in Hty. rewrite Hty in E1.
+      change (4 =? 0) with false in E1. change (4 =? 1) with false in E1. change (4 =? 2) with false in E1. change (4 =? 3) with false in E1.
+      change (4 =? 4) with true in E1. cbv iota in E1.
+      exact (slotted_service_jrn2t an h _ s0 s1 J0 D E1). }
+    destruct H1 as (J1 & D1). clear E1.
+    split; [|exact (event_tail_pickT cf s1 s' (WFx2_Idx _ _ (proj1 J1)) D1 H)].
+    tstep H ns sx0 Ens. apply gets_spec in Ens as [-> ->].
+    tstep H u2 s2 E2.
+    pose proof (WFx2_Idx _ _ (proj1 J1)) as HI1.
+    assert (EJ2 : Journey2s.VJ s2 = Journey2s.VJ s1).
+    { apply (Journey2s.kb_kj KT _ (Journey2s.kb_update_all cf (map n_id (nodes s1))) s1 tt s2); [apply Idx_vidx; exact HI1|exact I|exact E2]. }
+    pose proof (Journey2s.Jst_VJ an h [] s1 s2 EJ2 J1) as J2.
+    destruct (SlotIntX_keep cf None _ s1 tt s2 (kt_update_all cf _) HI1 D1 E2) as (D2 & _ & _). clear E2.
+    destruct (fnan_spec _ _ H) as (En & Ei & El & Ee & Een & Ea).
+    apply (Jrn2t_same cf an s2 s' (h ++ log s')); [exact En|exact Ei|exact Ee|exact Een|rewrite Ea; reflexivity|].
+    destruct J2 as (A2 & B2 & C2). rewrite El. split; [exact A2|]. split; [exact B2|]. split; [exact C2|exact D2].
+  Qed.
+
+  (* EVENT LEVEL, SLOT EVENTS ONLY *)
+  Theorem event_step_jrn2t_partial an s s' h : Jrn2t cf an s h -> slot_event_b s = true -> event_step cf s = Ok (tt, s') ->
+    Jrn2t cf (an_step s an) s' (h ++ log s') /\ PickT cf s'.
+  Proof.
+    intros (A & B & C & D) Hse H. apply (event_step_Jrn2t_slot (an_step s an) h s s'); [|exact Hse|exact H].
+    split; [exact A|]. split; [|auto]. apply (JH_an_ext an _ _ _ A); [|exact B]. intros i Hi. apply an_step_old. exact Hi.
+  Qed.
+End SlotStep.
+
+Lemma Jrn2t_dr cf an s h d : Jrn2t cf an s h -> Jrn2t cf an (s <| dr := d |>) h.
+Proof. apply Jrn2t_same; reflexivity. Qed.
+
+(* every event of the run is a slot event *)
+Fixpoint slots_only (cf : config) (s : sim) (ds : list draws) : Prop :=
+  match ds with
+  | [] => True
+  | d :: r => slot_event_b s = true /\ forall s1, event_step cf (s <| dr := d |>) = Ok (tt, s1) -> slots_only cf s1 r
+  end.
+Theorem run_slots_jrn2t_partial cf : scope2t cf = true -> forall ds s h an s' h' an', Jrn2t cf an s h -> slots_only cf s ds ->
+  run_hist cf s h an ds = Ok (s', h', an') -> Jrn2t cf an' s' h' /\ run_many cf s ds = Ok s' /\ exists t, h' = h ++ t.
+Proof.
+  intros Hsc ds s h an s' h' an' HJ Hso H. split; [|split; [eapply run_hist_many; eauto|eapply run_hist_grows; eauto]].
+  revert s h an HJ Hso H. induction ds as [|d r IH]; intros s h an HJ Hso H; cbn [run_hist] in H; [injection H as <- <- <-; exact HJ|].
+  destruct (event_step cf (s <| dr := d |>)) as [[u s1]| |] eqn:E; try discriminate. destruct u. destruct Hso as [Hse Hso].
+  apply (IH s1 (h ++ log s1) (an_step s an)); [|exact (Hso s1 E)|exact H].
+  exact (proj1 (event_step_jrn2t_partial cf Hsc an _ s1 h (Jrn2t_dr _ _ _ _ d HJ) Hse E)).
+Qed.
+
+(* ====================================================================================================================
+   6. What the invariant says (the six clauses of C03, as Journey2s.Jrn2s_means; the interrupted lists of slotted nodes)
+   ==================================================================================================================== *)
+Theorem Jrn2t_means cf an s h : Jrn2t cf an s h ->
+  (* (0) the first record of a customer is at the node where it arrived *)
+  (forall i r l, recs_of i h = r :: l -> an i = Some (r_node r)) /\
+  (* (1) the records of one customer, in order, are one connected journey *)
+  (forall i l1 r1 r2 l2, recs_of i h = l1 ++ r1 :: r2 :: l2 ->
+     visit r2 /\ ((closing r1 /\ r_dest r1 = Some (r_node r2) /\ r_exit r1 = r_arr r2) \/ (cont r1 /\ r_node r2 = r_node r1 /\ r_arr r2 = r_arr r1))) /\
+  (* (2) a baulk / rejection record is its customer's only record *)
+  (forall r, In r h -> ~ visit r -> recs_of (r_id r) h = [r]) /\
+  (* (3) a customer in node k+1 is recorded there, has as many records as its counter says, and its last record leads here *)
+  (forall k nd i, nth_error (nodes s) k = Some nd -> In i (all_individuals nd) ->
+     exists x, find_ind i (inds s) = Some x /\ i_node x = Some (Z.of_nat k + 1) /\ i_nrec x = zlen (recs_of i h) /\
+       ((recs_of i h = [] /\ an i = Some (Z.of_nat k + 1)) \/
+        exists l r, recs_of i h = l ++ [r] /\
+          ((closing r /\ r_dest r = Some (Z.of_nat k + 1) /\ r_exit r = i_arr x) \/ (cont r /\ r_node r = Z.of_nat k + 1 /\ r_arr r = i_arr x))) /\
+       (forall l1 r l2, recs_of i h = l1 ++ r :: l2 -> Forall cont l2 -> closing r ->
+          r_dest r = Some (Z.of_nat k + 1) /\ r_exit r = i_arr x /\ Forall (fun r' => r_node r' = Z.of_nat k + 1 /\ r_arr r' = i_arr x) l2) /\
+       (Forall cont (recs_of i h) -> an i = Some (Z.of_nat k + 1) /\ Forall (fun r' => r_node r' = Z.of_nat k + 1 /\ r_arr r' = i_arr x) (recs_of i h))) /\
+  (* (4) a customer is at the exit exactly when its last record names destination -1 or is a baulk / rejection record *)
+  (forall i, 1 <= i <= a_created (arr s) ->
+     (In i (exit_ids s) <-> exists l r, recs_of i h = l ++ [r] /\ (r_dest r = Some (-1) \/ r_type r = 3 \/ r_type r = 4))) /\
+  (* (5) records only name customers that exist *)
+  (forall r, In r h -> r_id r <= a_created (arr s)).
+Proof.
+  intros (HW & [A B C F D] & _).
+  assert (P3 : forall k nd i, nth_error (nodes s) k = Some nd -> In i (all_individuals nd) ->
+     exists x, find_ind i (inds s) = Some x /\ good an (Z.of_nat k + 1) i x h).
+  { intros k nd i Hk Hin. apply (A (Z.of_nat k + 1) i). exists nd. split; [|exact Hin]. unfold nodeZ.
+    replace (Z.of_nat k + 1 - 1) with (Z.of_nat k) by lia. rewrite Conserve2.nthZ_of_nat. exact Hk. }
+  split; [exact F|]. split; [|split; [|split; [|split; [|exact D]]]].
+  - intros i l1 r1 r2 l2 E. pose proof (C i) as Hc. rewrite E in Hc. apply chain_mid in Hc. exact Hc.
+  - intros r Hr Hty. apply (chain_only _ r (C (r_id r))); [apply recs_of_In; auto|exact Hty].
+  - intros k nd i Hk Hin. destruct (P3 k nd i Hk Hin) as (x & Hx & Gn & Gl & Gc & Ga). exists x.
+    split; [exact Hx|]. split; [exact Gn|]. split; [exact Gc|]. split; [|split].
+    + unfold last_of in Gl. destruct (last_opt (recs_of i h)) as [r|] eqn:El.
+      * right. destruct (last_opt_split _ _ El) as [l Hl]. exists l, r. split; [exact Hl|exact Gl].
+      * left. apply last_opt_None in El. auto.
+    + intros l1 r l2 E Hf Hcl. pose proof (C i) as Hc. rewrite E in Hc.
+      assert (Hc' : chain (r :: l2)) by (clear -Hc; induction l1 as [|a t IH]; [exact Hc|apply IH; destruct Hc as [_ Hc]; exact Hc]).
+      assert (Hl' : lastok (Z.of_nat k + 1) (i_arr x) (last_opt (r :: l2))).
+      { unfold last_of in Gl. rewrite E in Gl. clear -Gl. induction l1 as [|a t IH]; [exact Gl|apply IH]. cbn [app last_opt] in Gl.
+        destruct (last_opt (t ++ r :: l2)) eqn:E0; [exact Gl|]. apply last_opt_None in E0. destruct t; discriminate E0. }
+      destruct (chain_visit _ _ l2 r Hc' Hf Hl') as (Q1 & _ & Q3). destruct (Q1 Hcl). auto.
+    + intros Hf. destruct (recs_of i h) as [|r l] eqn:E; [split; [exact (Ga eq_refl)|constructor]|].
+      inversion Hf as [|? ? Hcr Hfl]. subst. pose proof (C i) as Hc. rewrite E in Hc. unfold last_of in Gl. rewrite E in Gl.
+      destruct (chain_visit _ _ l r Hc Hfl Gl) as (_ & Q2 & Q3). destruct (Q2 Hcr) as [N1 A1].
+      split; [rewrite (F i r l E), N1; reflexivity|constructor; auto].
+  - intros i Hi. split.
+    + intros Hin. destruct (B i Hin) as (r & Hl & Ht). destruct (last_opt_split _ _ Hl) as [l El]. exists l, r. split; [exact El|].
+      destruct Ht as [[_ Hd]|[Ht|Ht]]; auto.
+    + intros (l & r & El & Hr).
+      destruct (Conserve2.WFx2_means _ HW) as (HP & _).
+      assert (Hin : In i (Conserve2.ids_of s)) by (eapply Permutation_in; [symmetry; exact HP|]; apply zseq_In; lia).
+      unfold Conserve2.ids_of in Hin. apply in_app_or in Hin as [Hin|Hin]; [exfalso|exact Hin].
+      unfold Conserve2.ids_in_nodes in Hin. apply in_concat in Hin as (q & Hq & Hiq). apply in_map_iff in Hq as (nd & <- & Hnd).
+      apply In_nth_error in Hnd as (k & Hk).
+      destruct (P3 k nd i Hk Hiq) as (x & _ & _ & Gl & _ & _). unfold last_of in Gl. rewrite El, last_opt_snoc in Gl.
+      destruct Gl as [(Hcl & Hd & _)|((Ht & Hd) & _)].
+      * destruct Hr as [Hr|[Hr|Hr]]; [rewrite Hr in Hd; injection Hd as Hd; lia| |]; destruct Hcl as [Hc|[Hc|[Hc _]]]; congruence.
+      * destruct Hr as [Hr|[Hr|Hr]]; congruence.
+Qed.
+
+(* the customers on the interrupted list of a SLOTTED node k+1, in words: distinct customers in the queues of that node, recorded
+   there, each carrying the server mark and neither a service start date nor a service end date; and every customer recorded at a
+   slotted node with a service start date carries the server mark *)
+Theorem Jrn2t_int_means cf an s h : Jrn2t cf an s h ->
+  (forall k nd, nth_error (nodes s) k = Some nd -> slot_of cf (Z.of_nat k + 1) = true ->
+     NoDup (n_interrupted nd) /\
+     forall i, In i (n_interrupted nd) ->
+       In i (all_individuals nd) /\
+       exists x, find_ind i (inds s) = Some x /\ i_node x = Some (Z.of_nat k + 1) /\ i_server x <> None /\ i_sst x = None /\ i_send x = None) /\
+  (forall i x j, find_ind i (inds s) = Some x -> i_node x = Some j -> slot_of cf j = true -> i_sst x <> None -> i_server x <> None).
+Proof.
+  intros (HW & HJ & _ & HS). split.
+  - intros k nd Hk Hsl.
+    assert (Hn : nodeZ s (Z.of_nat k + 1) = Some nd).
+    { unfold nodeZ. replace (Z.of_nat k + 1 - 1) with (Z.of_nat k) by lia. rewrite Conserve2.nthZ_of_nat. exact Hk. }
+    split; [exact (sx_nd _ _ _ HS _ nd Hn Hsl)|]. intros i Hin.
+    destruct (sx_mem _ _ _ HS _ nd i Hn Hsl Hin) as (x & Hx & P1 & P2 & P3). destruct (P3 ltac:(discriminate)) as [P4 P5]. split.
+    + destruct (WFx2_rec_place _ _ _ _ HW Hx) as [[k0 Hk0]|[]]. destruct (j_node _ _ _ HJ k0 i Hk0) as (x0 & Hx0 & G & _).
+      assert (x0 = x) by congruence. subst x0. assert (k0 = Z.of_nat k + 1) by congruence. subst k0.
+      destruct Hk0 as (n0 & Hn0 & Hi0). assert (n0 = nd) by congruence. subst n0. exact Hi0.
+    + exists x. auto.
+  - intros i x j Hf Hnode Hsl. apply (sx_mark _ _ _ HS i x j Hf Hnode Hsl). discriminate.
+Qed.
+
+(* ====================================================================================================================
+   7. Executable test of the invariant
+   ==================================================================================================================== *)
+Definition slotint_b (cf : config) (s : sim) : bool :=
+  forallb (fun nd =>
+     negb (slot_of cf (n_id nd)) ||
+     (nodupZ (n_interrupted nd) &&
+      forallb (fun i => match find_ind i (inds s) with
+                        | Some x => ozeqb (i_node x) (Some (n_id nd)) && negb (isnone (i_server x)) && isnone (i_sst x) && isnone (i_send x)
+                        | None => false end) (n_interrupted nd))) (nodes s)
+  && forallb (fun x => match i_node x with
+                       | Some j => negb (slot_of cf j) || isnone (i_sst x) || negb (isnone (i_server x))
+                       | None => true end) (inds s).
+Definition jrn2t_b (cf : config) (an : Z -> option Z) (s : sim) (h : list rec) : bool :=
+  Conserve2.wfx2_b s && jh_b an s h && lq_b s && slotint_b cf s.
+
+Theorem slotint_b_sound cf s : Idx s -> slotint_b cf s = true -> SlotInt cf s.
+Proof.
+  intros HI H. unfold slotint_b in H. apply andb_true_iff in H as [H1 H2]. rewrite forallb_forall in H1, H2.
+  assert (Hnode : forall j nd, nodeZ s j = Some nd -> slot_of cf j = true ->
+            nodupZ (n_interrupted nd) = true /\ forall i, In i (n_interrupted nd) ->
+              match find_ind i (inds s) with
+              | Some x => ozeqb (i_node x) (Some j) && negb (isnone (i_server x)) && isnone (i_sst x) && isnone (i_send x)
+              | None => false end = true).
+  { intros j nd Hn Hs. specialize (H1 nd (nthZ_In _ _ _ Hn)). rewrite (HI _ _ Hn), Hs in H1. cbn in H1.
+    apply andb_true_iff in H1 as [A B]. split; [exact A|]. rewrite forallb_forall in B. exact B. }
+  constructor.
+  - intros j nd Hn Hs. apply nodupZ_sound. exact (proj1 (Hnode j nd Hn Hs)).
+  - intros j nd i Hn Hs Hin. pose proof (proj2 (Hnode j nd Hn Hs) i Hin) as B.
+    destruct (find_ind i (inds s)) as [x|]; [|discriminate B]. apply andb_true_iff in B as [B E4]. apply andb_true_iff in B as [B E3].
+    apply andb_true_iff in B as [E1 E2]. exists x. split; [reflexivity|]. split; [apply ozeqb_eq; exact E1|].
+    split; [destruct (i_server x); [discriminate|discriminate E2]|]. intros _. split; apply isnone_eq; assumption.
+  - intros i x j Hf Hnode' Hs _ Hsst. specialize (H2 x (find_ind_In _ _ _ Hf)). rewrite Hnode', Hs in H2. cbn in H2.
+    destruct (i_sst x); [|congruence]. cbn in H2. destruct (i_server x); [discriminate|discriminate H2].
+Qed.
+Theorem jrn2t_b_sound cf an s h : jrn2t_b cf an s h = true -> Jrn2t cf an s h.
+Proof.
+  unfold jrn2t_b. intros H. apply andb_true_iff in H as [H B4]. apply andb_true_iff in H as [H B3]. apply andb_true_iff in H as [B1 B2].
+  pose proof (Conserve2.wfx2_b_sound s B1) as HW. pose proof (WFx2_Idx _ _ HW) as HI.
+  split; [exact HW|]. split; [apply jh_b_sound; assumption|]. split; [|exact (slotint_b_sound cf s HI B4)].
+  unfold lq_b in B3. rewrite forallb_forall in B3. constructor.
+  - intros d fr y (nd & Hn & Hin). specialize (B3 nd (nthZ_In _ _ _ Hn)). apply andb_true_iff in B3 as [B3 _]. rewrite forallb_forall in B3.
+    specialize (B3 (fr, y) Hin). cbn in B3. destruct (find_ind y (inds s)) as [x|]; [|discriminate]. apply andb_true_iff in B3 as [E1 E2].
+    exists x. rewrite (HI _ _ Hn) in E1. split; [reflexivity|]. split; [apply ozeqb_eq; exact E1|exact E2].
+  - intros d nd Hn. specialize (B3 nd (nthZ_In _ _ _ Hn)). apply andb_true_iff in B3 as [_ B3]. apply nodupZ_sound. exact B3.
+Qed.
+
+(* ====================================================================================================================
+   8. Example: Slot2's network (node 1: capacitated slots of sizes 2, 1, 2, 1, ... at 2, 5, 7, 10, ..., option `resume`; node 2: one
+      server).  Three customers arrive at 1; slot 1 starts customers 1 and 2 (service times 1 and 12), customer 1 moves on at 3;
+      slot 3 (size 2, at 7) starts customer 3 (100); slot 4 (size 1, at 10, two in service) INTERRUPTS customer 2: continuation
+      record (2, node 1, type 1, 1..10, no destination), customer 2 is on the interrupted list (Journey2's NoInt and Journey2s's
+      IntInv are false there); slot 5 (size 2, at 12) RESUMES it; slot 6 (size 1, at 15) interrupts it again, slot 7 (at 17)
+      resumes it; it ends its service at 18 - service record (2, node 1, type 0, 1..18, to node 2) -, is served at node 2 and
+      leaves at 24.  Its four records chain; the executable invariant holds after EVERY one of the 14 events (arrival, ends of
+      service and slots alike); the slot-event theorem applies to the three consecutive slot events 12, 15, 17 (resume, interrupt,
+      resume) and to every run of slot events from there.
+   ==================================================================================================================== *)
+Definition jt_cf : config := Slot2.ex_cf 1.
+Definition jt_s0 : sim := Slot2.ex_s0.
+Definition jt_d (l : list Z) : draws := mkDraws [1000] [3] l [0; 0] [] [].
+Definition jt_ds : list draws := [jt_d []; jt_d [1; 12]; jt_d [6]; jt_d [6]; jt_d [100]] ++ repeat (jt_d [6]) 9.
+Definition jt_after (n : nat) : sim * list rec * (Z -> option Z) :=
+  match run_hist jt_cf jt_s0 [] jx_an0 (firstn n jt_ds) with Ok r => r | _ => (jt_s0, [], jx_an0) end.
+Definition jt_s7 : sim := fst (fst (jt_after 7)).
+Definition jt_h7 : list rec := snd (fst (jt_after 7)).
+Definition jt_an7 : Z -> option Z := snd (jt_after 7).
+
+Fixpoint slots_only_b (cf : config) (s : sim) (ds : list draws) : bool :=
+  match ds with
+  | [] => true
+  | d :: r => slot_event_b s && match event_step cf (s <| dr := d |>) with Ok (_, s1) => slots_only_b cf s1 r | _ => true end
+  end.
+Lemma slots_only_b_sound cf : forall ds s, slots_only_b cf s ds = true -> slots_only cf s ds.
+Proof.
+  induction ds as [|d r IH]; intros s H; cbn [slots_only_b slots_only] in *; [exact I|]. apply andb_true_iff in H as [H1 H2].
+  split; [exact H1|]. intros s1 E. rewrite E in H2. exact (IH s1 H2).
+Qed.
+
+Example jt_scope : scope2t jt_cf = true /\ Journey2s.scope2s jt_cf = false /\ pslot jt_cf = true.
+Proof. vm_compute. auto. Qed.
+Example jt_start : Jrn2t jt_cf jx_an0 jt_s0 [].
+Proof. apply jrn2t_b_sound. vm_compute. reflexivity. Qed.
+(* the invariant after each of the 14 events; which of them are slot events; the interrupted list of node 1 *)
+Example jt_run :
+  map (fun n => match run_hist jt_cf jt_s0 [] jx_an0 (firstn n jt_ds) with
+                | Ok (s, h, an) => Some (now s, slot_event_b s, map n_interrupted (firstn 1 (nodes s)), jrn2t_b jt_cf an s h)
+                | _ => None end) (seq 0 15) =
+  [ Some (1, false, [[]], true); Some (2, true, [[]], true); Some (3, false, [[]], true); Some (5, true, [[]], true);
+    Some (7, true, [[]], true); Some (9, false, [[]], true); Some (10, true, [[]], true); Some (12, true, [[2]], true);
+    Some (15, true, [[]], true); Some (17, true, [[2]], true); Some (18, false, [[]], true); Some (20, true, [[]], true);
+    Some (22, true, [[]], true); Some (24, false, [[]], true); Some (25, true, [[]], true) ].
+Proof. vm_compute. reflexivity. Qed.
+(* the records of customer 2 chain: two continuation records, a service record naming node 2, a service record naming the exit *)
+Example jt_chain : exists s h an, run_hist jt_cf jt_s0 [] jx_an0 jt_ds = Ok (s, h, an) /\ Jrn2t jt_cf an s h /\
+  map jx_view (recs_of 2 h) = [(2, 1, 1, Some 1, Some 10, None); (2, 1, 1, Some 1, Some 15, None); (2, 1, 0, Some 1, Some 18, Some 2);
+                               (2, 2, 0, Some 18, Some 24, Some (-1))] /\ exit_ids s = [1; 2].
+Proof. eexists. eexists. eexists. split; [vm_compute; reflexivity|]. split; [apply jrn2t_b_sound; vm_compute; reflexivity|]. vm_compute. auto. Qed.
+(* customer 2 on the list at 12: the invariant holds; the theorem covers the slot events that follow, whatever the draws *)
+Example jt_s7_inv : Jrn2t jt_cf jt_an7 jt_s7 jt_h7 /\ map n_interrupted (nodes jt_s7) = [[2]; []] /\ slot_event_b jt_s7 = true.
+Proof. split; [apply jrn2t_b_sound; vm_compute; reflexivity|]. vm_compute. auto. Qed.
+(* Journey2s's invariant is FALSE in that state (ii_sch: only a node with a pre-emptive Schedule has interrupted customers), as
+   Journey2's is (Journey2r.jrn2_not_kept_by_preemptive_slot): the region is outside their scope, not a defect of the engine *)
+Example jt_s7_not_Jrn2s : ~ Journey2s.Jrn2s jt_cf jt_an7 jt_s7 jt_h7.
+Proof.
+  intros (_ & _ & _ & HI & _).
+  assert (Hn : exists nd, nodeZ jt_s7 1 = Some nd /\ n_interrupted nd = [2]) by (eexists; split; vm_compute; reflexivity).
+  destruct Hn as (nd & Hn & Hl). pose proof (Journey2s.ii_sch _ _ _ _ _ HI 1 nd Hn ltac:(vm_compute; reflexivity)) as Hy. congruence.
+Qed.
+Example jt_thm : forall ds s h an, slots_only jt_cf jt_s7 ds -> run_hist jt_cf jt_s7 jt_h7 jt_an7 ds = Ok (s, h, an) -> Jrn2t jt_cf an s h.
+Proof.
+  intros ds s h an Hso H. exact (proj1 (run_slots_jrn2t_partial jt_cf (proj1 jt_scope) ds jt_s7 jt_h7 jt_an7 s h an (proj1 jt_s7_inv) Hso H)).
+Qed.
+Example jt_three_slots : slots_only jt_cf jt_s7 (firstn 3 (skipn 7 jt_ds)) /\
+  exists s h an, run_hist jt_cf jt_s7 jt_h7 jt_an7 (firstn 3 (skipn 7 jt_ds)) = Ok (s, h, an) /\ Jrn2t jt_cf an s h /\
+    now s = 18 /\ map jx_view (recs_of 2 h) = [(2, 1, 1, Some 1, Some 10, None); (2, 1, 1, Some 1, Some 15, None)].
+Proof.
+  assert (Hso : slots_only jt_cf jt_s7 (firstn 3 (skipn 7 jt_ds))) by (apply slots_only_b_sound; vm_compute; reflexivity).
+  split; [exact Hso|]. eexists. eexists. eexists. split; [vm_compute; reflexivity|].
+  split; [apply (jt_thm (firstn 3 (skipn 7 jt_ds))); [exact Hso|vm_compute; reflexivity]|]. vm_compute. auto.
+Qed.
+
+Print Assumptions scope2s_scope2t.
+Print Assumptions slotted_service_jrn2t.
+Print Assumptions event_step_jrn2t_partial.
+Print Assumptions run_slots_jrn2t_partial.
+Print Assumptions Jrn2t_means.
+Print Assumptions Jrn2t_int_means.
+Print Assumptions jrn2t_b_sound.
+Print Assumptions interrupt_service_other_SI.
+Print Assumptions biis_SI.
+Print Assumptions event_tail_pickT.
+Print Assumptions slotint_b_sound.
+Print Assumptions jt_s7_not_Jrn2s.
+Print Assumptions jt_run.
+Print Assumptions jt_chain.
+Print Assumptions jt_thm.
+Print Assumptions jt_three_slots.
